@@ -237,3 +237,139 @@ def render_damaged(d: dict, seed: int = 0) -> str:
             body = "(" + body + ")"
         text = d["pre"] + body + d["post"] + "\n"
     return text.replace("@U@", PALETTE[seed % len(PALETTE)])
+
+
+# ---------------------------------------------------------------------------
+# Canon.tla documents -> RFC-0166 text (the canonical printer of C02)
+
+CANON_HEAD = {
+    "none": ("", ""),
+    "lam_id": ("finalAttrs: ", ""),
+    "lam_formals_inline": ("{ lib, stdenv }:\n", ""),
+    "lam_formals_ml": ("{\n  lib,\n  stdenv,\n  fetchurl ? null,\n  ...\n}:\n", ""),
+    "lam_formals_at": ("{ lib, ... }@args:\n", ""),
+    "call": ("stdenv.mkDerivation ", ""),
+    "call_rec": ("stdenv.mkDerivation ", ""),
+    "call_paren_lam": ("stdenv.mkDerivation (finalAttrs: ", ")"),
+    "lam_call": ("{ lib, stdenv }:\nstdenv.mkDerivation ", ""),
+    "with": ("with pkgs;\n", ""),
+    "assert": ("assert lib.isString name;\n", ""),
+    "header_comment": ("# SPDX-License-Identifier: MIT\n# generated file\n", ""),
+}
+
+
+def _canon_val(v: dict, ind: int, uniq) -> str:
+    k = v["k"]
+    if k == "lit":
+        return v["text"]
+    pad = " " * ind
+    if k == "list":
+        if not v["xs"]:
+            return "[ ]"
+        if not v["ml"]:
+            return "[ " + " ".join(v["xs"]) + " ]"
+        return "[\n" + "".join(f"{pad}  {x}\n" for x in v["xs"]) + pad + "]"
+    if k == "istr":
+        body = "".join((f"{pad}  {ln}\n" if ln else "\n") for ln in v["lines"])
+        return "''\n" + body + pad + "''"
+    pre = "rec " if v.get("rec") else ""
+    if not v["items"]:
+        return pre + "{ }"
+    if not v["ml"]:
+        return pre + "{ " + " ".join(_canon_item_core(x, 0, uniq()) for x in v["items"]) + " }"
+    return pre + "{\n" + "\n".join(_canon_items(v["items"], ind + 2, uniq)) + "\n" + pad + "}"
+
+
+def _canon_item_core(x: dict, ind: int, used: dict) -> str:
+    def fresh(n: str) -> str:
+        c = used.get(n, 0) + 1
+        used[n] = c
+        return n if c == 1 else f"{n}{c}"
+    if x["k"] == "i":
+        names = " ".join(fresh(n) for n in x["names"])
+        return f"inherit {'(' + x['src'] + ') ' if x['src'] else ''}{names};"
+    return None  # bindings are rendered by the caller (need the value printer)
+
+
+def _canon_items(items: list, ind: int, uniq) -> list[str]:
+    used: dict = {}
+    out: list[str] = []
+    pad = " " * ind
+
+    def fresh(n: str) -> str:
+        c = used.get(n, 0) + 1
+        used[n] = c
+        return n if c == 1 else f"{n}{c}"
+    for n, x in enumerate(items):
+        if x.get("blank") and n > 0:
+            out.append("")
+        for c in x.get("lead", []):
+            out.append(_comment(c, ind))
+        if x["k"] == "i":
+            core = f"inherit {'(' + x['src'] + ') ' if x['src'] else ''}{' '.join(fresh(m) for m in x['names'])};"
+        else:
+            core = f"{fresh(x['name'])} = {_canon_val(x['val'], ind, uniq)};"
+        line = pad + core
+        if x.get("eol"):
+            line += " " + _comment(x["eol"], 0)
+        out.append(line)
+    return out
+
+
+def render_canon(d: dict, seed: int = 0) -> str:
+    def uniq():
+        return {}
+    # inline sets: their items are plain `name = lit;' bindings
+    def inline_items(v):
+        used: dict = {}
+        parts = []
+        for x in v["items"]:
+            c = used.get(x["name"], 0) + 1
+            used[x["name"]] = c
+            parts.append(f"{x['name'] if c == 1 else x['name'] + str(c)} = {x['val']['text']};")
+        return parts
+
+    def val(v, ind):
+        if v["k"] == "set" and v["items"] and not v["ml"]:
+            return ("rec " if v.get("rec") else "") + "{ " + " ".join(inline_items(v)) + " }"
+        if v["k"] == "set" and v["items"]:
+            return ("rec " if v.get("rec") else "") + "{\n" + "\n".join(items(v["items"], ind + 2)) + "\n" + " " * ind + "}"
+        return _canon_val(v, ind, uniq)
+
+    def items(its, ind):
+        used: dict = {}
+        out = []
+        pad = " " * ind
+
+        def fresh(n):
+            c = used.get(n, 0) + 1
+            used[n] = c
+            return n if c == 1 else f"{n}{c}"
+        for n, x in enumerate(its):
+            if x.get("blank") and n > 0:
+                out.append("")
+            for c in x.get("lead", []):
+                out.append(_comment(c, ind))
+            if x["k"] == "i":
+                core = f"inherit {'(' + x['src'] + ') ' if x['src'] else ''}{' '.join(fresh(m) for m in x['names'])};"
+            else:
+                core = f"{fresh(x['name'])} = {val(x['val'], ind)};"
+            line = pad + core
+            if x.get("eol"):
+                line += " " + _comment(x["eol"], 0)
+            out.append(line)
+        return out
+    body = ("rec " if d["rec"] or d["head"] == "call_rec" else "")
+    body += "{\n" + "\n".join(items(d["items"], 2)) + "\n}" if d["items"] else "{ }"
+    pre, post = CANON_HEAD[d["head"]]
+    text = pre + body + post
+    if d["layers"]:
+        let = "let\n  version = \"1.0\";\n  src = fetchurl { url = \"u\"; };\nin\n"
+        if d["head"] in ("lam_formals_ml", "lam_formals_inline", "lam_formals_at"):
+            text = pre + let + body + post
+        else:
+            text = let + text
+    if d["foot"]:
+        text += "\n# end of file"
+    pal = ["foo", "bar-baz", "qux'", "_private"][seed % 4]
+    return text.replace("finalAttrs", pal if pal.isidentifier() else "finalAttrs") + "\n"
